@@ -84,6 +84,12 @@ SegSets == << <<Segment(300 * Km, <<100 * Km>>, <<0>>, <<45>>)>>,
               <<Segment(250 * Km, <<60 * Km>>, <<0>>, <<90>>)>>,
               <<Segment(150 * Km, <<100 * Km>>, <<-40 * Km>>, <<30>>), Segment(150 * Km, <<100 * Km>>, <<-40 * Km>>, <<30, 110>>),
                 Segment(100 * Km, <<100 * Km, 40 * Km>>, <<-40 * Km, 0>>, <<110>>)>> >>
+(* per-coordinate overrides ("sections"): the same number of segments as SegSets[sg], other lengths / dips / thickness *)
+AltSegSets == << <<Segment(350 * Km, <<80 * Km>>, <<0>>, <<55>>)>>,
+                 <<Segment(250 * Km, <<100 * Km, 100 * Km>>, <<0>>, <<30, 50>>), Segment(250 * Km, <<100 * Km>>, <<0, -10 * Km>>, <<50>>)>>,
+                 <<Segment(200 * Km, <<90 * Km>>, <<0>>, <<80>>)>>,
+                 <<Segment(100 * Km, <<120 * Km>>, <<-40 * Km>>, <<40>>), Segment(200 * Km, <<120 * Km>>, <<-40 * Km>>, <<40, 100>>),
+                   Segment(0, <<120 * Km, 40 * Km>>, <<-40 * Km, 0>>, <<100>>)>> >>                              \* the last one a zero-length placeholder
 PlumeGeoms == << [c |-> << <<700, 400>>, <<700, 400>> >>, d |-> <<60 * Km, 400 * Km>>, a |-> <<150, 120>>, e |-> <<0, Dec(5, -1)>>, r |-> <<0, 30>>],
                  [c |-> << <<300, 800>>, <<500, 700>>, <<600, 400>> >>, d |-> <<20 * Km, 200 * Km, 500 * Km>>, a |-> <<80, 200, 120>>,
                   e |-> <<Dec(8, -1), Dec(3, -1), 0>>, r |-> <<350, 10, 170>>] >>
@@ -168,10 +174,13 @@ Init == /\ sph \in BOOLEAN /\ glob \in 1..Len(Globals) /\ frame \in 1..3 /\ sec 
         /\ feats = <<>> /\ cur = <<>> /\ stage = "none" /\ done = FALSE
 
 (* an abstract feature: type, geometry indices <<g, dip point, segment set>>, depth kind, model indices per kind *)
-New(t, g, dp, sg) == [type |-> t, g |-> g, dp |-> dp, sg |-> sg, dk |-> 1, tm |-> <<>>, cm |-> <<>>, gm |-> <<>>, vm |-> <<>>]
+(* so: section overrides of a line feature -- 0 none, 1 the first coordinate gets the alternative segment table, 2 the last coordinate gets
+   the alternative table and a temperature model of its own at section level *)
+New(t, g, dp, sg) == [type |-> t, g |-> g, dp |-> dp, sg |-> sg, so |-> 0, dk |-> 1, tm |-> <<>>, cm |-> <<>>, gm |-> <<>>, vm |-> <<>>]
 Start == /\ stage = "none" /\ ~done /\ Len(feats) < MaxFeatures
          /\ \/ \E t \in {"continental plate", "oceanic plate", "mantle layer"}, g \in 1..Len(Polys) : cur' = New(t, g, 0, 0)
-            \/ \E t \in {"subducting plate", "fault"}, g \in 1..Len(Trenches), dp \in 1..Len(DipPoints), sg \in 1..Len(SegSets) : cur' = New(t, g, dp, sg)
+            \/ \E t \in {"subducting plate", "fault"}, g \in 1..Len(Trenches), dp \in 1..Len(DipPoints), sg \in 1..Len(SegSets), so \in 0..2 :
+                  cur' = [New(t, g, dp, sg) EXCEPT !.so = so]
             \/ \E g \in 1..Len(PlumeGeoms) : cur' = New("plume", g, 0, 0)
          /\ stage' = "depths" /\ UNCHANGED <<dm, sec, sph, glob, frame, feats, done>>
 (* depth range: value-at-points surfaces only for area features (they are built from the polygon) *)
@@ -204,6 +213,10 @@ Render(f, a, k) ==
                 @@ ("grains models" :> Models(GModels(f, t), a.gm)) @@ ("velocity models" :> Models(VModels(f, t), a.vm))
   IN CASE IsArea(t) -> common @@ ("coordinates" :> Pts(f, Polys[a.g]))
        [] IsLine(t) -> common @@ ("coordinates" :> Pts(f, Trenches[a.g])) @@ ("dip point" :> XYg(f, DipPoints[a.dp])) @@ ("segments" :> SegSets[a.sg])
+                       @@ (CASE a.so = 1 -> ("sections" :> << ("coordinate" :> 0) @@ ("segments" :> AltSegSets[a.sg]) >>)
+                             [] a.so = 2 -> ("sections" :> << ("coordinate" :> (Len(Trenches[a.g]) - 1)) @@ ("segments" :> AltSegSets[a.sg])
+                                                               @@ ("temperature models" :> <<TUniform(555, "replace")>>) >>)
+                             [] OTHER -> <<>>)
        [] OTHER -> LET p == PlumeGeoms[a.g] IN
                    common @@ ("coordinates" :> Pts(f, p.c)) @@ ("cross section depths" :> p.d) @@ ("semi-major axis" :> [i \in 1..Len(p.a) |-> U(f, p.a[i])])
                           @@ ("eccentricity" :> p.e) @@ ("rotation angles" :> [i \in 1..Len(p.r) |-> Azimuth(f, p.r[i])])
